@@ -11,3 +11,5 @@ func raceEnable()                {}
 func raceRelease(unsafe.Pointer) {}
 func raceAcquire(unsafe.Pointer) {}
 func raceErrors() int            { return 0 }
+
+func RaceErrors() int { return 0 }
